@@ -994,11 +994,13 @@ impl<'l> CelCompiler<'l> {
                         // Arguments are evaluated backwards so they get popped off the stack in order
                         for (a, ast) in args.into_iter().rev() {
                             args_ast.push(ast);
-                            args_node =
-                                args_node.append_result(CompiledProg::with_code_points(vec![
-                                    ByteCode::Push(a.into_unresolved_bytecode().resolve().into())
-                                        .into(),
-                                ]))
+                            // the identifiers an argument reads stay parameters of the program
+                            let (a_inner, a_details) = a.into_parts();
+                            let mut push_arg = CompiledProg::with_code_points(vec![
+                                ByteCode::Push(a_inner.into_bytecode().resolve().into()).into(),
+                            ]);
+                            push_arg.details = a_details;
+                            args_node = args_node.append_result(push_arg)
                         }
                         // the syntax tree keeps the arguments in source order
                         args_ast.reverse();
@@ -1301,6 +1303,7 @@ impl<'l> CelCompiler<'l> {
                 loc,
             }) => {
                 let mut bytecode = Vec::<PreResolvedCodePoint>::new();
+                let mut details = crate::program::ProgramDetails::new();
 
                 for segment in segments.iter() {
                     match segment {
@@ -1312,10 +1315,12 @@ impl<'l> CelCompiler<'l> {
                             let mut comp = CelCompiler::with_tokenizer(&mut tok);
 
                             let (e, _) = comp.parse_expression()?;
+                            let (e_inner, e_details) = e.into_parts();
+                            details.union_from(e_details);
 
                             bytecode.push(
                                 ByteCode::Push(CelValue::ByteCode(
-                                    e.into_unresolved_bytecode().resolve(),
+                                    e_inner.into_bytecode().resolve(),
                                 ))
                                 .into(),
                             );
@@ -1328,8 +1333,11 @@ impl<'l> CelCompiler<'l> {
                 // Reverse it so its evaluated in order on the stack
                 bytecode.push(ByteCode::FmtString(segments.len() as u32).into());
 
+                let mut fstring = CompiledProg::with_code_points(bytecode);
+                fstring.details = details;
+
                 Ok((
-                    CompiledProg::with_code_points(bytecode),
+                    fstring,
                     AstNode::new(
                         Primary::Literal(LiteralsAndKeywords::FStringList(segments.clone())),
                         loc,
@@ -1428,12 +1436,13 @@ impl<'l> CelCompiler<'l> {
     fn check_for_const(&self, member_prime_node: CompiledProg) -> CompiledProg {
         let mut i = Interpreter::empty();
         i.add_bindings(&self.bindings);
-        let bc = member_prime_node.into_unresolved_bytecode().resolve();
+        let (inner, details) = member_prime_node.into_parts();
+        let bc = inner.into_bytecode().resolve();
         let r = i.run_raw(&bc, true);
 
         match r {
-            Ok(v) => CompiledProg::with_const(v),
-            Err(_) => CompiledProg::with_bytecode(bc),
+            Ok(v) => CompiledProg::new(NodeValue::ConstExpr(v), details),
+            Err(_) => CompiledProg::new(NodeValue::Bytecode(bc.into()), details),
         }
     }
 }
